@@ -304,10 +304,10 @@ def finish(pid, tier, seed, results, mirtext, timing, extra_assumptions=()):
         print(l)
     print('%s %s: specs=%d paths=%d obligations=%d discharged=%d sat=%d(known %d, new %d) unknown=%d witness=%s exact_queries=%d solver=%.1fs wall=%.1fs' % (
         pid, tier, len(results), sum(total_paths.values()), n_obl, n_unsat, len(seen), len(known_hits), len(new_viol), len(unknowns), dict(witness), queries, solver_s, timing.get('wall_s', 0)))
+    for m in inconclusive:
+        print('INCONCLUSIVE: ' + m[:1500])
     if new_viol:
         return 1
     if inconclusive:
-        for m in inconclusive:
-            print('INCONCLUSIVE: ' + m)
         return 2
     return 0
